@@ -194,14 +194,23 @@ def _is_launch_wait(ctx: Ctx, g: Graph, ev: Ev) -> bool:
     return False
 
 
-def _pred_loop_callee(ctx: Ctx, unit: FuncUnit) -> Optional[FuncUnit]:
-    """The in-repo function whose result the readiness predicate iterates (the predecessors)."""
+def _pred_loop_callee(ctx: Ctx, unit: FuncUnit, depth: int = 0) -> Optional[FuncUnit]:
+    """The in-repo function whose result the readiness predicate iterates (the predecessors); the predicate
+    may be a thin wrapper (lambda / helper) around the function that contains the loop."""
     env = FuncEnv.of(ctx.p, unit)
     for n in env.own_nodes():
         if isinstance(n, ast.For) and isinstance(n.iter, ast.Call):
             for t in env.resolve_call(n.iter):
                 if t[0] == 'func':
                     return t[1]
+    if depth < 3:
+        for n in env.own_nodes():
+            if isinstance(n, ast.Call):
+                for t in env.resolve_call(n):
+                    if t[0] == 'func' and t[1].cls is ctx.manager_class():
+                        r = _pred_loop_callee(ctx, t[1], depth + 1)
+                        if r is not None:
+                            return r
     return None
 
 
@@ -377,3 +386,56 @@ def rule_store_contract(ctx: Ctx, out: Collector) -> None:
                     f'a result of a re-iteration stays hidden and its waiters never see it')
     if n == 0:
         raise AnalysisError('no publisher method found in the storage class (ST-1 anchor vanished)')
+
+
+def rule_default_visibility(ctx: Ctx, out: Collector) -> None:
+    """ST-2: every read accessor of the storage keyed by a node id treats a hidden entry (a result of the previous
+    iteration) as absent unless the caller asks for hidden entries explicitly."""
+    p = ctx.p
+    st = ctx.storage_class()
+    n = 0
+    for m in st.methods.values():
+        params = m.params()
+        if len(params) < 2 or not (m.name.startswith('get_') or m.name.startswith('exists_')):
+            continue
+        # the store it reads
+        fld = None
+        for nn in ast.walk(m.node):
+            if isinstance(nn, ast.Attribute) and isinstance(nn.value, ast.Name) and nn.value.id == 'self' and nn.attr in st.fields:
+                fld = nn.attr
+        if fld is None:
+            # delegating accessor: find through the methods it calls
+            for nn in ast.walk(m.node):
+                if isinstance(nn, ast.Call) and isinstance(nn.func, ast.Attribute) and isinstance(nn.func.value, ast.Name) \
+                        and nn.func.value.id == 'self' and nn.func.attr in st.methods:
+                    for x in ast.walk(st.methods[nn.func.attr].node):
+                        if isinstance(x, ast.Attribute) and isinstance(x.value, ast.Name) and x.value.id == 'self' and x.attr in st.fields:
+                            fld = x.attr
+        if fld is None:
+            continue
+        # accessors of tuple-keyed markers are not per-node entries
+        src = unparse(m.node)
+        if '(source, dest)' in src or len(params) > 2 and params[2] in ('dest',):
+            continue
+        n += 1
+        problems = []
+        for vc in ('TRUTHY', 'NONE', 'EXC'):
+            def run(oracle: Oracle, m=m, fld=fld, vc=vc):
+                storage = make_storage(p, st, {fld: {'K': ('hidden', value_token(p, vc) if fld == 'node_results' else 1)}})
+                interp = Interp(p, oracle)
+                return interp.call_unit(m, ['K'], {}, storage)
+            for o in enumerate_outcomes(run):
+                if o[0] != 'value':
+                    problems.append(f'hidden {vc}: raises {o[1]}')
+                elif o[1] not in (None, False):
+                    problems.append(f'hidden {vc}: returns {o[1]!r}')
+        cons = f'{m.module.name}::{m.qualname}::a hidden entry is invisible by default'
+        if not problems:
+            out.ok('ST-2', cons, p.loc(m, m.node), f'{fld}: hidden entry -> None / False with default arguments')
+        else:
+            out.bad('ST-2', cons, p.loc(m, m.node),
+                    f'{m.name}({params[1]}) with default arguments sees an entry of {fld} that was hidden for the next iteration '
+                    f'({problems[0]}): readiness / routing of the new iteration is decided against the previous iteration\'s entry',
+                    props={'C03', 'C09', 'C11'})
+    if n < 4:
+        raise AnalysisError(f'only {n} storage read accessors found (ST-2 anchors vanished)')
